@@ -150,6 +150,7 @@ type Interp struct {
 	forks    func(prefix []int)
 	expectPanic bool
 	depth    int
+	curFr    *frame
 	ghost    map[string]Value
 	speculating bool
 	merges   int
@@ -790,10 +791,22 @@ func (in *Interp) callSSA(caller *frame, fn *ssa.Function, args []Value, env []V
 		fr.env[fr.fi.idx[l]] = p
 	}
 	fr.block = fn.Blocks[0]
+	saved := in.curFr
+	in.curFr = fr
 	for fr.block != nil {
 		fr.runBlocks()
 	}
+	in.curFr = saved
 	return fr.result
+}
+
+// whereAmI names the innermost interpreted functions (for engine-error reports).
+func (in *Interp) whereAmI() string {
+	var names []string
+	for f := in.curFr; f != nil && len(names) < 6; f = f.caller {
+		names = append(names, f.fn.String())
+	}
+	return strings.Join(names, " <- ")
 }
 
 // runBlocks runs until return; a panic in the interpreted program is routed to the recover block.
